@@ -97,13 +97,15 @@ def path_jdd(ctx, cfg):
     names = NAME_SETS[cfg["names"]][:T]
     desc = f"keys={keys} names={names}"
     jdd = dict(P)
+    jdd_given = jdd
     # mean joint degree
-    avg = ctx.guard("mean-raised", AverageJointDegreeFromJDD.get_average_joint_degrees, dict(jdd))
+    avg = ctx.guard("mean-raised", AverageJointDegreeFromJDD.get_average_joint_degrees, jdd)
     ref_avg = [sum_(k[i] * P[k] for k in keys) for i in range(T)]
     ctx.require(all_(eq(a, b) for a, b in zip(avg, ref_avg)) if len(avg) == T else False, "mean-degree",
                 f"{desc}: mean joint degree is not the P-weighted mean", twin=all_(eq(a, b + 1) for a, b in zip(avg, ref_avg)), logic="QF_NRA")
     # forward: excess distributions
-    qks = ctx.guard("excess-raised", JointExcessfromJDD.get_joint_excess_distributions, dict(jdd))
+    qks = ctx.guard("excess-raised", JointExcessfromJDD.get_joint_excess_distributions, jdd)
+    ctx.require(list(jdd) == keys and all_(eq(jdd[k], P[k]) for k in keys), "excess-formula", f"{desc}: the distribution handed in was modified", sig="excess:input-mutated")
     ctx.require(len(qks) == T, "excess-formula", f"{desc}: {len(qks)} excess distributions for {T} topologies")
     for i in range(T):
         want = {}
@@ -141,7 +143,12 @@ def path_jdd(ctx, cfg):
     if T > 1 and ctx.fork_bool(ctx.bool("dict_reversed")):
         qd = dict(reversed(list(qd.items())))  # the dictionary need not have been filled in the order of the names list
         desc += " (qks dictionary filled in reverse order)"
-    inv = ctx.guard("inversion-raised", JointDegreeFromExcess.get_joint_degree_distribution, qd, list(names))
+    q_before = {t: dict(q) for t, q in qd.items()}
+    names_rt = ["".join(list(t)) for t in names]  # equal strings built at run time (identity differs from the dictionary keys)
+    inv = ctx.guard("inversion-raised", JointDegreeFromExcess.get_joint_degree_distribution, qd, list(names_rt))
+    untouched = set(qd) == set(q_before) and all(set(qd[t]) == set(q_before[t]) for t in qd)
+    ctx.require(all_([untouched] + [eq(qd[t][k], q_before[t][k]) for t in qd for k in q_before[t] if untouched]), "inversion",
+                f"{desc}: the excess distributions handed to the inversion were modified", logic="QF_NRA", sig="inversion:input-mutated")
     nonzero = [k for k in keys if any(x > 0 for x in k)]
     Z = sum_(P[k] for k in nonzero)
     ok_keys = set(inv) == set(nonzero)
